@@ -14,6 +14,7 @@
 #include <sqlite_modern_cpp.h>
 
 #include "djv.hpp"
+#include "djv_state.hpp"
 
 namespace djv
 {
@@ -175,6 +176,8 @@ int main(int argc, char** argv)
     {
         if (line.empty() || line[0] == '#')
         {
+            if (line.rfind("#alias on", 0) == 0) djv::lib::S.alias = true;
+            if (line.rfind("#alias off", 0) == 0) djv::lib::S.alias = false;
             std::cout << "skip\n" << std::flush;
             continue;
         }
@@ -183,6 +186,13 @@ int main(int argc, char** argv)
             std::istringstream is(line);
             std::string tok;
             while (is >> tok) a.push_back(tok);
+        }
+        // a trailing `+alias` token on any line (normally the one that creates the library) switches handle
+        // aliasing on for the rest of the script; tools/runner.py strips the token before the model sees the line
+        if (!a.empty() && a.back() == "+alias")
+        {
+            djv::lib::S.alias = true;
+            a.pop_back();
         }
         std::string out;
         g_wrap.bad_region = 0;
